@@ -52,7 +52,7 @@ def call_sx(case):
 def impl_result(case):
     built = T.Built(case['tree'])
     pos, kw = split_call(case)
-    limit = 3 if has_kind(case['tree'], ('adj',)) else 10       # a levelling loop that does not end is cut early
+    limit = 2 if has_kind(case['tree'], ('adj',)) else 10       # a levelling loop that does not end is cut early
     r = common.call_impl(lambda: built.obj.evaluate(copy.deepcopy(case['votes']), *copy.deepcopy(pos), **copy.deepcopy(kw)), limit)
     return r
 
@@ -74,7 +74,7 @@ def answer_miss(built, m):
     elif hasattr(obj, 'calculate'):        # a seat count calculator: calculate(votes, n_seats, prev_gains=, max_seats=)
         kw = {T.KW[i]: T.dec(o[0]) for i, o in enumerate(opts) if o}
         n = kw.pop('n_seats')
-        r = common.call_impl(lambda: obj.calculate(votes, n, **kw), 3)
+        r = common.call_impl(lambda: obj.calculate(votes, n, **kw), 2)
         osx = raw(opts)
     elif not hasattr(obj, 'evaluate'):     # a quota function: (total votes, seats) -> number
         n = T.dec(opts[0][0])
@@ -218,13 +218,18 @@ def has_tie(v):
     return False
 
 
-def known_class_of(case, flags, ri, rh, rm):
+def known_class_of(case, flags, ri, rh, rm, wi=None):
     """decidable classes of the recorded findings (flags from the model: wt, faithful, fits)"""
     if rh[0] == 'err' and 'AllZero' in str(rh[2]) and ri[0] == 'err' and ri[1] == common.E['STOP'] and rm == ('err', common.E['STOP']):
         return 'C14-byconstituency-all-zero'
-    if not flags[1] and wire_of_result(ri) == rm:
+    if not flags[1] and (wi if wi is not None else wire_of_result(ri)) == rm:
         return 'C14-generic-wrapper-hides-prev-gains'
     return None
+
+
+def noend(w):
+    """a levelling loop that does not end: the implementation is cut by the alarm, the model runs out of fuel - the same answer"""
+    return ('err', common.E['FUEL']) if w[0] == 'err' and w[1] in (common.E['TIMEOUT'], common.E['FUEL'], common.E['OTHER']) else w
 
 
 def explore_trees(ctx, stream, cases):
@@ -278,6 +283,11 @@ def explore_trees(ctx, stream, cases):
             wh = wire_of_result(rh)
         except Exception:   # noqa
             wh = ('err', -1)
+        if has_kind(c['tree'], ('adj',)):
+            wi, wm, wsm, wh = noend(wi), noend(wm), noend(wsm), noend(wh)
+            if wm == ('err', common.E['FUEL']) and wi[0] == 'ok':
+                ctx.dist['levelling-loop-too-long'] += 1      # the loop ends, but not within the model's fuel: case dropped
+                continue
         if ri[0] == 'ok':
             try:
                 T.enc(ri[1])
@@ -312,7 +322,7 @@ def explore_trees(ctx, stream, cases):
             ctx.dist['spec-model-vs-hand-differs'] += 1
             why = why or 'run_spec %s differs from the by-hand composition %s' % (short(wsm), short(wh))
         if why:
-            kid = known_class_of(c, flags, ri, rh, wm)
+            kid = known_class_of(c, flags, ri, rh, wm, wi)
             if kid and any(k['id'] == kid for k in ctx.known):
                 ctx.known_hits[kid] += 1
             else:
